@@ -535,7 +535,7 @@ def harnesses(tier: str) -> List[H]:
                     params.append(I("o%d" % i, 0, len(OPTS) - 1))
             inv_classes = [0]
             params += [B("i%d" % i) for i in inv_classes] + [B("inv_all")]
-            with_fg = tier == "thorough" or (kind == "method" and n == 3)
+            with_fg = tier == "thorough" or (kind == "method" and shape == "two_bases")
             if with_fg:
                 params += [B("fg")]
             params += truth(n) + [B("v%d" % i) for i in inv_classes]
